@@ -108,8 +108,13 @@ def pmap(mod, specs, nproc=None):
     if nproc <= 1 or len(specs) <= 1:
         return [_worker(s) for s in specs]
     ctx = mp.get_context("fork")
+    # expensive cases first (spec["cost"] hint), results returned in the original order
+    order = sorted(range(len(specs)), key=lambda i: -specs[i].get("cost", 1))
     with ctx.Pool(min(nproc, len(specs))) as pool:
-        out = pool.map(_worker, specs, chunksize=1)
+        res = pool.map(_worker, [specs[i] for i in order], chunksize=1)
+    out = [None] * len(specs)
+    for i, r in zip(order, res):
+        out[i] = r
     return out
 
 
